@@ -23,19 +23,22 @@ import bbgen  # noqa: E402
 import m17ref  # noqa: E402
 
 PROPERTY = "C07"
-CONSTS = ["app", "golay", "callsign"]
+CONSTS = ["app", "golay", "callsign", "correlator"]
 COQ_TARGETS = ["Properties_C07.vo", "Extract_C07.vo"]
 PROPERTIES_FILE = "Properties_C07.v"
 LEVEL = "proof"
 RULE = ("app-handler callback sequences (structured + random LSFs with every TYPE low byte, addresses around 40^k and >= 40^9, packet "
         "sequences with every control byte / counter / EOF / length incl. EOF+0 first after a RAW LSF, valid AX.25 packets of every "
         "info length 0..60 with random extension bits, stream frames around the cost limits, PRBS and random BERT frames, garbage), "
-        "ax25 strings of every length 0..60, callsigns, framer histories, LICH fragments 0..7, clock estimates; sample streams "
+        "ax25 strings of every length 0..60, callsigns, framer histories, LICH fragments 0..7, clock estimates; Correlator op scripts "
+        "(sample histories around multiples of 80, correlate at every position, outer_symbol_levels 0..9 / 10..79 / >= 80, apply 0..255) and "
+        "SyncWord call scripts on a scripted correlator (every index 0..9 and >= 10, trigger / peak sequences); sample streams "
         "(noise, constants, tones, squares, impulses, full scale, M17 stream/packet/BERT basebands with corruption, truncation, "
         "concatenation) >= 2 s each; decoder frames (random, saturated, zero, valid with flips, all sync-type sequences <= 4). "
         "A case is non-trivial if it reaches at least one handler / one sample; distinct by content.")
-ASSUMPTIONS = ["models = hand-written ImplApp.v / ImplAx25.v / ImplRxIndex.v with checked accesses; tie = model fault <=> sanitizer death on the cases of this run",
+ASSUMPTIONS = ["models = hand-written ImplApp.v / ImplAx25.v / ImplRxIndex.v / ImplCorrelator.v with checked accesses; tie = model fault <=> sanitizer death on the cases of this run",
                "finite clock estimate in [0,10] from the floating-point Kalman filter (hypothesis of c07_sample_index_in_range) is exercised by the sanitizer runs, not proved",
+               "the demodulator's control state is not modelled: c07_sample_index_sources_in_range quantifies over every order of the index-touching blocks of M17Demodulator.h (closed list checked by tools/consts/correlator.py); Correlator / SyncWord sample values are abstract",
                "codec2_decode writes exactly 160 samples and reads 8 bytes (libcodec2, mode 3200; checked by the harness at start-up)",
                "Viterbi / Golay / depuncture / callsign-codec index obligations are proved in C02 / C04 / C11 / C17, here only exercised under the sanitizers",
                "Blaze is replaced by harness/shim/blaze: the Kalman numerics exercised are those of the shim"]
@@ -325,6 +328,49 @@ def gen_rxidx_cases(ctx):
     return impl, model
 
 
+
+def gen_corr_cases(ctx):
+    """op scripts for the real Correlator<float> / SyncWord<> (harness) and their index models; same text for both sides"""
+    r = ctx.rng.fork("c07-corr")
+    mult = 5 if ctx.tier == "thorough" else 1
+    cases, misuse = [], []
+
+    def samples(n, start=1):
+        return [f"s{(start + k) % 97 + 1}" for k in range(n)]
+
+    # positions after n samples, n around the multiples of the buffer size; correlate + the other readers at the end
+    for n in [0, 1, 9, 10, 11, 69, 70, 71, 79, 80, 81, 159, 160, 161, 239, 240, 241, 800] + [r.below(400) for _ in range(10 * mult)]:
+        cases.append("corr " + ",".join(samples(n) + ["c", f"o{r.below(10)}", f"a{r.below(10)}", "c"])); ctx.count("corr:history")
+    # correlate after every sample over two turns of the buffer (every prev_buffer_pos_)
+    cases.append("corr " + ",".join(x for k in range(170) for x in (f"s{k % 50 + 1}", "c"))); ctx.count("corr:correlate-every-pos")
+    # outer_symbol_levels / apply: every index of interest, on a full and on a fresh buffer
+    for i in list(range(0, 80)) + [80, 81, 89, 90, 100, 127, 128, 200, 255]:
+        pre = samples(r.choice([0, 37, 80, 123]))
+        (cases if i < 80 else misuse).append("corr " + ",".join(pre + [f"o{i}", "s5", f"o{(i + 3) % 10}"])); ctx.count("corr:osl" if i < 80 else "corr:osl-outside-precondition")
+    for i in range(0, 256, 1 if mult > 1 else 3):
+        cases.append("corr " + ",".join(samples(r.choice([0, 85])) + [f"a{i}"])); ctx.count("corr:apply")
+    for _ in range(20 * mult):
+        ops = []
+        for _ in range(r.range(5, 200)):
+            k = r.below(12)
+            ops.append(f"s{r.range(-99, 99)}" if k < 8 else "c" if k < 10 else f"o{r.below(10)}" if k == 10 else f"a{r.below(256)}")
+        cases.append("corr " + ",".join(ops)); ctx.count("corr:random")
+    # SyncWord on the scripted correlator
+    for i in list(range(0, 10)) + [10, 11, 79, 255]:
+        (cases if i < 10 else misuse).append(f"sw 0:{i},5:{i},-7:{(i + 1) % 10},u,0:{i},u,u,3:{i},0:0,u"); ctx.count("sw:index" if i < 10 else "sw:index-outside-precondition")
+    for _ in range(40 * mult):
+        ops = []
+        for _ in range(r.range(1, 60)):
+            k = r.below(10)
+            ops.append("u" if k == 0 else f"0:{r.below(10)}" if k < 4 else f"{r.range(-50, 50)}:{r.below(10)}")
+        bad = r.chance(1, 8)
+        if bad:
+            ops.append(f"{r.range(1, 9)}:{r.range(10, 300)}")
+            ops.append("0:0")
+        (misuse if bad else cases).append("sw " + ",".join(ops)); ctx.count("sw:random-outside-precondition" if bad else "sw:random")
+    return cases, misuse
+
+
 def gen_dec_cases(ctx):
     r = ctx.rng.fork("c07-dec")
     thorough = ctx.tier == "thorough"
@@ -507,6 +553,8 @@ def death_key(case, done, report):
             "unpackframe": ("lich-decode-fault", "decode_lich / unpack_lich faults"),
             "clk": ("clock-index-fault", "ClockRecovery::update(uint8_t) faults"),
             "clk0": ("clock-index-fault", "ClockRecovery::update() faults"),
+            "corr": ("correlator-index-oob", "Correlator sample / correlate / outer_symbol_levels / apply leaves buffer_ or tmp"),
+            "sw": ("syncword-index-oob", "SyncWord::operator() stores outside samples_"),
             "dec": ("decoder-fault", "M17FrameDecoder (+ handle_frame) faults on a frame sequence")}.get(t[0], ("rx-fault", "receive path faults"))
 
 
@@ -522,8 +570,10 @@ def canon(line):
     return "DIED" if line == "| DIED" else line
 
 
-def run_differential(ctx, exe, name, impl_cases, model_cases, check_model=True):
-    """run harness + model on aligned case lists; record tie breaks and violations; returns harness lines"""
+def run_differential(ctx, exe, name, impl_cases, model_cases, check_model=True, oracle=True):
+    """run harness + model on aligned case lists; record tie breaks and violations; returns harness lines.
+    oracle=False: the cases call the code OUTSIDE its precondition (a death is the expected outcome, the model must fault too):
+    only the correspondence is checked."""
     text = "\n".join(impl_cases) + "\n"
     (ctx.workdir / f"{name}.cases.txt").write_text(text)
     rc, out, err = run_lines(exe, text)
@@ -550,7 +600,7 @@ def run_differential(ctx, exe, name, impl_cases, model_cases, check_model=True):
     # oracle on the real code: no death, no write outside the LSF buffer, no packet callback after EOF
     reported = set()
     for i, l in enumerate(lines):
-        if i >= len(impl_cases):
+        if i >= len(impl_cases) or not oracle:
             break
         key = None
         if l.endswith("DIED"):
@@ -641,6 +691,10 @@ def run(ctx):
         impl, model = gen_rxidx_cases(ctx)
         l2 = run_differential(ctx, app, "rxidx", impl, model)
         ctx.sample({"case": model[40][:120] if len(model) > 40 else None, "implementation": l2[40][:120] if len(l2) > 40 else None})
+        ccases, cmisuse = gen_corr_cases(ctx)
+        l4 = run_differential(ctx, app, "corr", ccases, ccases)
+        run_differential(ctx, app, "corr-outside-precondition", cmisuse, cmisuse, oracle=False)
+        ctx.sample({"case": ccases[3][:120], "implementation": l4[3][:160] if len(l4) > 3 else None})
         dcases = gen_dec_cases(ctx)
         l3 = run_differential(ctx, app, "dec", dcases, dcases, check_model=False)
         ctx.sample({"case": dcases[5][:100] + "...", "implementation": l3[5][:200] if len(l3) > 5 else None})
